@@ -13,20 +13,20 @@ CHECKS = {
              'fed to the real main.main through a simulated raw stream under the real BufferedReader/TextIOWrapper; every truncation '
              'point of small streams (thorough) or line boundaries plus 64 random interior offsets (quick) is enumerated as an EOF fault, '
              'and raw reads as KeyboardInterrupt faults. Conservation, order, passthrough text, prefix-on-cut, closed-notices and the '
-             'pace of output relative to raw reads are judged against ground truth. Sampled streams, enumerated crash points.',
+             'pace of output relative to raw reads are judged against ground truth. Chatter includes program output with its own colour sequences and cut-off fronts of message lines (open string argument). Sampled streams, enumerated crash points.',
         note='Trusted: libwayland printer model, chatter templates that cannot match the message grammar, Python text I/O; stdout block buffering below stream.Std is outside the seam.',
         technique=TECH + '; truncation/interrupt points enumerated per sampled stream'),
     'C02': dict(level='exploration', ref='4 C02',
         text='Seeded well-formed histories from simulated client/server endpoints that allocate ids as libwayland does (LIFO reuse of client ids only '
              'after delete_id, free reuse of server-range ids, registry binds of known/unknown interfaces, objects created by requests and events) are '
              'run through the real tool; after every message the target, every object / new-id argument and the delete_id subject the tool attributes '
-             '(Connection.messages() objects and the type@id+letters tokens on output lines) are compared with ground truth; identity/bijection of objects at end of run. A quarter of the runs (lanes 12-15) feed the same kind of history as libwayland closures through the GDB world (real plugin.py / extract.py on the fake gdb, messages from foreign threads included) and judge it with the same oracle.',
-        note='Trusted: wl_map id-allocation model, printer model, independent XML reader. Sampling of histories, not proof; no transport faults because the quantifier is well-formed histories.',
+             '(Connection.messages() objects and the type@id+letters tokens on output lines) are compared with ground truth; identity/bijection of objects at end of run. A quarter of the runs (lanes 12-15) feed the same kind of history as libwayland closures through the GDB world (real plugin.py / extract.py on the fake gdb, messages from foreign threads included) and judge it with the same oracle. Deep runs recycle one id more than 702 times (three-letter labels). One run in nine adds stray messages on client ids nothing has created yet (a log that started late), ids the allocator hands out later: they must stay unresolved and create nothing.',
+        note='Trusted: wl_map id-allocation model, printer model, independent XML reader. Sampling of histories, not proof; no transport faults because the quantifier is well-formed histories (the stray-message runs are ill-formed on purpose and judged only on what every history must satisfy).',
         technique=TECH),
     'C03': dict(level='exploration', ref='4 C03',
         text='Same simulated world with the simulator clock supplying timestamps; after every message the alive flag of every reachable object is compared with the '
              'ground-truth lifetime (delete_id for client ids, silent death on re-use for server-range ids), no resurrection, at most one live object per id, '
-             'destruction annotations present exactly on delete_id lines naming the right incarnation with lifespan = destroy - create within print precision. A quarter of the runs (lanes 12-15) feed the same kind of history as libwayland closures through the GDB world (real plugin.py / extract.py on the fake gdb, messages from foreign threads included) and judge it with the same oracle.',
+             'destruction annotations present exactly on delete_id lines naming the right incarnation with lifespan = destroy - create within print precision. A quarter of the runs (lanes 12-15) feed the same kind of history as libwayland closures through the GDB world (real plugin.py / extract.py on the fake gdb, messages from foreign threads included) and judge it with the same oracle. Deep runs (> 702 incarnations of one id) and stray messages on never-created ids as in C02.',
         note='Trusted: as C02 plus the simulated clock; lifespans compared at 0.5e-4 s tolerance.',
         technique=TECH),
     'C04': dict(level='exploration', ref='4 C04',
@@ -38,7 +38,7 @@ CHECKS = {
     'C06': dict(level='exploration', ref='4 C06',
         text='Component rig (real Parser + ConnectionManager + Controller): a multi-connection history streams in while a scripted user changes the filter and the selected connection '
              'between two reads at scheduler-chosen points; every arriving message is stamped with the reference (filter, selection) in force and the shown message lines are compared in both directions '
-             '(nothing matching hidden, nothing else shown, once, in order); Connection.messages() and a closing `connection all` + `list *` must contain every message. Every sixth run adds messages on objects the tool cannot resolve (under selection changes, filter *); app ids that collide with connection names are aimed at `connection <x>`. A quarter of the runs (lanes 12-15) drive the same session model through the GDB world: the real plugin.py command and message paths on the fake gdb, commands typed at user interrupts.',
+             '(nothing matching hidden, nothing else shown, once, in order); Connection.messages() and a closing `connection all` + `list *` must contain every message. Every sixth run adds messages on objects the tool cannot resolve (under selection changes, filter *); a quarter of the streams end without a final newline; app ids that collide with connection names are aimed at `connection <x>`. A quarter of the runs (lanes 12-15) drive the same session model through the GDB world: the real plugin.py command and message paths on the fake gdb, commands typed at user interrupts.',
         note='Trusted: three-valued reference matcher over the documented subset (don\'t-cares counted); simulated endpoints and printer. Commands are injected between two readline() calls of the real parse loop.',
         technique=TECH + '; user actor scheduled between reads'),
     'C11': dict(level='exploration', ref='4 C11',
@@ -48,26 +48,26 @@ CHECKS = {
         technique=TECH + '; user actor scheduled between reads'),
     'C12': dict(level='exploration', ref='4 C12',
         text='Sequences of 1-8 filter/breakpoint commands (alternatives only, exclusions only, both, `*`, `!`, malformed) interleaved with traffic; a reference accumulated state '
-             '(constant * / constant ! / alternatives + exclusions) judges every later message (shown? Stopped-at?) and every no-argument `list` over the whole recorded history; malformed commands must report an error and leave the state unchanged. A quarter of the runs (lanes 12-15) drive the same session model through the GDB world: the real plugin.py command and message paths on the fake gdb, commands typed at user interrupts.',
+             '(constant * / constant ! / alternatives + exclusions) judges every later message (shown? Stopped-at?) and every no-argument `list` over the whole recorded history; malformed commands must report an error and leave the state unchanged; `list` commands with explicit matchers (exclusion-only ones included) in between must leave it unchanged too. A quarter of the runs (lanes 12-15) drive the same session model through the GDB world: the real plugin.py command and message paths on the fake gdb, commands typed at user interrupts.',
         note='Trusted: reference matcher; one deliberate don\'t-care (alternatives swallowed by an earlier `*`), counted in evidence.',
         technique=TECH + '; user actor scheduled between reads'),
     'C14': dict(level='exploration', ref='4 C14',
         text='Two parts, stated plainly: (1) a finite enumeration, not simulation: number_to_letter_id/letter_id_to_number against an independent bijective base-26 for all 475254 indexes through four letters plus 100000 sampled up to 1e18; '
              '(2) by simulation: sessions with heavy id churn on 1-30 connections in which every id+letters label and connection name harvested from the tool\'s own output is fed back by the user actor as `list X: <label>` / `list X:`; '
-             'the listed messages must be exactly the ground-truth messages on/mentioning/creating/destroying that incarnation (resp. of that connection); no two distinct objects display the same label. A further workload drives duplicate opens / closes / re-opens on the connection-id sink and checks name uniqueness and `list X:`.',
-        note='Trusted: label scraping from output lines (string arguments removed), ground-truth incarnation tables. Histories reach two-letter labels (>26 incarnations) but not three-letter ones (bound: <=~130 incarnations per id).',
+             'the listed messages must be exactly the ground-truth messages on/mentioning/creating/destroying that incarnation (resp. of that connection); no two distinct objects display the same label. A further workload drives duplicate opens / closes / re-opens on the connection-id sink and checks name uniqueness and `list X:`. Deep runs recycle one id more than 702 times and type three-letter labels back. One run in five adds messages that name the id of a live object under another interface (unresolvable, shown as id?): a connection-qualified label must not select them; one in ten adds an ill-formed second get_registry on a live registry id and judges only the uniqueness clauses.',
+        note='Trusted: label scraping from output lines (string arguments removed), ground-truth incarnation tables. Histories reach three-letter labels (> 702 incarnations of one id) in the deep runs, four-letter ones only in the enumeration.',
         technique=TECH + '; labels harvested from output and fed back by the user actor (bijection part: exhaustive enumeration)'),
     'C16': dict(level='exploration', ref='4 C16',
         text='The clock is the injected fault: each simulated session (filters make the shown sequence a strict subsequence; listings) is replayed, same seed, under epoch 0 and a second epoch in [1, 2^32) us and with both decimal marks; '
              'displays must be identical up to one unit of the last digit. Absolute oracle: shown time = log time - first log time; a separator with the right value appears between consecutively shown messages (live or within one listing) iff the '
-             'ground-truth gap exceeds 1 000 000 us (gaps generated on the us lattice around the threshold), never before the first line of a listing, never elsewhere. A fifth of the runs use non-monotonic logs (lines stamped earlier than their predecessors or than the first line); a separator between a listing and the next live message is accepted only if it is the gap between the two live messages.',
+             'ground-truth gap exceeds 1 000 000 us (gaps generated on the us lattice around the threshold), never before the first line of a listing, never elsewhere. A fifth of the runs use non-monotonic logs (lines stamped earlier than their predecessors or than the first line); a separator between a listing and the next live message is accepted only if it is the gap between the two live messages. Sessions carry breakpoint commands, so a message may be stopped at while the filter hides it.',
         note='Deliberate don\'t-cares (counted): a gap of exactly 1 000 000 us; a live pair split by a non-empty listing. Trusted: simulated clock, printer model.',
         technique=TECH + '; clock-epoch shift and decimal-mark replay differential'),
     'C17': dict(level='exploration', ref='4 C17',
         text='Replay differential: the same simulated session (traffic, commands, transport faults drop/dup/swap/tear/garbage/id0 to reach unresolved objects, Unknown arguments, errors, warnings, empty listings) is executed twice with exactly the same schedule, '
              'with and without colour; coloured output minus SGR sequences (independent regex) must equal the plain output on both streams, the plain run must contain no ESC, and every matcher string, label, connection name and help-text command '
-             'the coloured session printed is pasted back with its escapes while the plain text is typed in the plain session - the sessions must stay equal.',
-        note='Nothing in this property depends on a schedule; the simulator contributes exact replay and fault injection. Input chatter is ESC-free.',
+             'the coloured session printed is pasted back with its escapes while the plain text is typed in the plain session - the sessions must stay equal. An eighth of the runs add program output carrying its own escape sequences: both sides are then compared without SGR sequences and the plain run must hold exactly the sequences of the passed-through input lines, none of the tool\'s own.',
+        note='Nothing in this property depends on a schedule; the simulator contributes exact replay and fault injection. Input chatter is ESC-free except in the runs that say otherwise.',
         technique=TECH + '; two-configuration replay differential'),
     'C13': dict(level='exploration', ref='4 C13',
         text='One byte stream is played through -l FILE, -p and -r PROG ARGS. In run mode subprocess.run is a simulated child writing to a simulated pipe; the helper thread is the real threading.Thread of run_program, '
@@ -84,13 +84,13 @@ CHECKS = {
     'C09': dict(level='exploration', ref='4 C09',
         text='GDB world: the real plugin.py and extract.py run against an in-process fake `gdb` module over byte-addressed fake inferior memory holding libwayland\'s structures (wl_closure, wl_message, wl_interface, union wl_argument, wl_array, wl_proxy, wl_resource, wl_client, wl_display, wl_connection). '
              'Closures from client- and server-side connections, sent and received, arrive in scheduler-chosen order (struct-offset cache cold / warm / warmed by the other side); signatures come from the shipped protocols and from per-run synthetic interfaces over i u f s o n a h with ? and version digits, 0-20 arguments. '
-             'Every Message returned by extract.received_message()/sent_message() is compared field by field with the ground-truth closure, and with what the real parse.message() decodes from the libwayland printer model\'s rendering of the same closure. Thorough tier: 24 sessions are replayed as C programs under the real gdb 13 with the real plugin and must print the same lines (stub fidelity).',
+             'Every Message returned by extract.received_message()/sent_message() is compared field by field with the ground-truth closure, and with what the real parse.message() decodes from the libwayland printer model\'s rendering of the same closure. Thorough tier: 24 sessions are replayed as C programs under the real gdb 13 with the real plugin and must print the same lines (stub fidelity). A fifth of the runs inject a Ctrl-C (KeyboardInterrupt) inside the k-th read of the inferior\'s memory during one hit: that message is lost, every later closure must still be reported faithfully. Dispatched closures sometimes carry the other side\'s dispatcher further up the stack (nested compositor).',
         note='Caveat stated in DESIGN.md: the quantifier is over closures (inputs); the simulator contributes the stand-in peer (gdb + inferior) without which none of extract.py runs, and the history dimension (offset cache, mixed sides). The fake gdb is the trusted base; fixed-point expression semantics were taken from real gdb 13.1.',
         technique=TECH + '; in-process fake gdb and simulated inferior'),
     'C10': dict(level='exploration', ref='4 C10',
         text='GDB world: messages on 1-3 connections from 1-3 inferior threads interleaved by the seeded scheduler with user commands typed whenever the inferior is halted (breakpoint changes through every registered spelling, connection selection, list, help, garbage, wlresume, wlquit, plain gdb continue); '
              'gdb.execute("continue") re-enters the inferior loop synchronously as in real gdb. For every message the value returned by stop() and the Stopped-at notice are compared with the reference breakpoint state and selection; for every command, continue is executed iff it was resume, quit iff quit, otherwise neither. '
-             'A second workload drives TerminalUI.run_until_stopped with scripted input and counts prompts. Sessions also contain wl_connection_destroy events (never a halt there; selection survives the close of the selected connection), app-id/name collisions and state-neutral garbage commands.',
+             'A second workload drives TerminalUI.run_until_stopped with scripted input and counts prompts; on one lane (no fake gdb module) the prompt is reached through main.main in file mode, also with open() failing with FileNotFoundError (I/O fault). Sessions also contain wl_connection_destroy events (never a halt there; selection survives the close of the selected connection), app-id/name collisions and state-neutral garbage commands.',
         note='Trusted: fake gdb (re-entrant continue), reference matcher (don\'t-cares counted). A command typed while the program runs is modelled as a user interrupt followed by the command.',
         technique=TECH + '; in-process fake gdb, user actor scheduled at halts'),
     'C15': dict(level='exploration', ref='4 C15',
